@@ -198,9 +198,13 @@ def stat_file(rng, nrec):
         cig = "".join(ops) if rng.random() < 0.9 else None
         tags = ([tp] if tp else []) + ["NM:i:%d" % rng.randint(0, 9)] + (["cg:Z:" + cig] if cig else [])
         rng.shuffle(tags)
-        qlen = rng.randint(n, n + 50)
+        # the aligned stretch starts anywhere in the read and on the path (the map ratio is (end - start) / length: found by the
+        # mechanical mutation sweep - with every start at 0, `end + start` went unnoticed)
+        qs = rng.choice([0, rng.randint(0, 60)])
+        ps = rng.choice([0, rng.randint(0, 60)])
+        qlen = rng.randint(qs + n, qs + n + 50)
         blen = rng.randint(1, n + 5)
-        lines.append(gen.gaf_record("read%d" % rng.randrange(nreads), qlen, 0, n, "+", ">s1", 1000, 0, n, rng.randint(0, blen), blen,
+        lines.append(gen.gaf_record("read%d" % rng.randrange(nreads), qlen, qs, qs + n, "+", ">s1", 1000, ps, ps + n, rng.randint(0, blen), blen,
                                     rng.choice([0, 0, 1, 30, 60]), tags))
     return lines
 
